@@ -427,6 +427,13 @@ def snapshot(c, o=None, st=None):
             env["sample_lists"] = bool(c.tree._ll_tree.get_options() & _tskit.SAMPLE_LISTS)
             if ts.num_nodes <= 64:
                 env["parent"] = [int(x) for x in c.tree.parent_array]
+    if o is not None and o.name == "tc.call" and st.get("args", {}).get("m") == "deduplicate_sites" and c.tc is not None \
+            and len(c.tc.mutations) <= 64:
+        pos = [float(x) for x in c.tc.sites.position]
+        srt = all(not (x > y) for x, y in zip(pos, pos[1:])) and all(math.isfinite(x) and 0 <= x < c.tc.sequence_length for x in pos)
+        if srt:                          # only then does the tool reach its remap loop
+            env["dedup"] = {"msite": [int(x) for x in c.tc.mutations.site], "ns": len(pos),
+                            "dups": len(set(pos)) < len(pos)}
     if o is not None and o.name == "table.columns_min_len" and c.tc is not None:
         a = st.get("args", {})
         full = getattr(c.tc, a["table"]).asdict()
@@ -2288,7 +2295,8 @@ def _(c, parent, keep):
     if not len(tc.sites):
         tc.sites.add_row(0.5, "A")
     for p in parent:
-        tc.mutations.add_row(site=0, node=0, derived_state="T", parent=res_id(p, n))
+        tc.mutations.add_row(site=0, node=0, derived_state="T", parent=-1)
+    tc.mutations.parent = np.array([res_id(p, n) for p in parent], dtype=np.int32)    # add_row refuses ids < -1
     r = tc.mutations.keep_rows(np.array([k == "1" for k in keep], dtype=bool))
     return [tc.mutations.num_rows, summarise(r), int(sum(tc.mutations.parent))]
 
@@ -2399,11 +2407,20 @@ def base_valid(rng, desc, tree=None):
     return {"kind": "valid", "desc": desc, "tree": tree}
 
 
-MANGLE_IDS = ["-2", "-1", "n", "n+1", "max", "min"]
+MANGLE_IDS = ["-2", "-1", "n", "n+1", "max", "min", "-3", "-1000"]
 
 
 MANGLE_KINDS = ["edge_id", "mut_id", "node_ref", "ind_parent", "mig_id", "edge_coord", "site_pos",
                 "time", "shuffle", "dup_edge", "self_edge", "mut_parent_cycle", "seqlen"]
+# an out-of-range cross-table reference TOGETHER WITH the structural precondition that makes a repair
+# tool do work (duplicate site positions, unsorted rows)
+MANGLE_COMBOS = [["site_pos:dup", "mut_id:site"], ["site_pos:dup", "mut_id:parent"], ["site_pos:unsorted", "mut_id:site"],
+                 ["shuffle", "mut_id:node"], ["shuffle", "edge_id:parent"], ["shuffle", "edge_id:child"],
+                 ["site_pos:dup", "mut_id:node"], ["dup_edge", "edge_id:child"], ["site_pos:dup", "node_ref"],
+                 ["shuffle", "mut_id:parent"], ["site_pos:unsorted", "mut_id:parent"], ["site_pos:dup", "ind_parent"]]
+REF_KINDS = ("edge_id", "mut_id", "node_ref", "ind_parent", "mig_id")
+CHECKING_CALLS = ("sort", "deduplicate_sites", "compute_mutation_parents", "compute_mutation_times", "canonicalise",
+                  "simplify", "tree_sequence")
 
 
 def mangle_desc(rng, desc, kinds=None):
@@ -2418,15 +2435,17 @@ def mangle_desc(rng, desc, kinds=None):
     if kinds is None:
         kinds = rng.sample(MANGLE_KINDS, rng.choice([1, 1, 2, 3]))
     for kind in kinds:
+        kind, _, param = kind.partition(":")          # e.g. "mut_id:site", "site_pos:dup"
         if kind == "edge_id" and d["edges"]:
             e = rng.choice(d["edges"])
-            f = rng.choice([2, 3])
+            f = {"parent": 2, "child": 3}.get(param) or rng.choice([2, 3])
             s = rng.choice(MANGLE_IDS)
             e[f] = res_id(s, nn)
             tags.append("edges.%s=%s" % ("parent" if f == 2 else "child", s))
         elif kind == "mut_id" and d["mutations"]:
             m = rng.choice(d["mutations"])
-            f = rng.choice([0, 1, 3])
+            f = {"site": 0, "node": 1, "parent": 3}.get(param, None)
+            f = rng.choice([0, 1, 3]) if f is None else f
             n = [len(d["sites"]), nn, None, len(d["mutations"])][f]
             s = rng.choice(MANGLE_IDS)
             m[f] = res_id(s, n)
@@ -2459,7 +2478,9 @@ def mangle_desc(rng, desc, kinds=None):
             e[f] = v
             tags.append("edges.%s=%s" % ("left" if f == 0 else "right", v if isinstance(v, str) else "bad"))
         elif kind == "site_pos":
-            v = rng.choice(["nan", "inf", -1, d["L"], d["L"] + 1, "dup", "unsorted"])
+            v = param or rng.choice(["nan", "inf", -1, d["L"], d["L"] + 1, "dup", "unsorted"])
+            if v == "dup" and not d["sites"]:
+                d["sites"].append([0, "A", ""])
             if v == "dup" and d["sites"]:
                 d["sites"].append(list(d["sites"][0]))
             elif v == "unsorted" and len(d["sites"]) > 1:
@@ -2519,10 +2540,85 @@ def desc_to_floats(d):
 _build_raw_inner = build_raw
 
 
+ID_FIELDS = {"edges": {2: "parent", 3: "child"}, "mutations": {0: "site", 1: "node", 3: "parent"},
+             "nodes": {2: "population", 3: "individual"}, "migrations": {2: "node", 3: "source", 4: "dest"}}
+
+
 def build_raw(base):      # noqa: F811  (wraps the table construction with float conversion)
+    """add_row refuses ids below -1, so such values (and only they) are written afterwards by
+    column assignment — the way they arrive in practice (set_columns, fromdict, files)."""
+    import copy
+    import numpy as np
     b = dict(base)
-    b["desc"] = desc_to_floats(base["desc"])
-    return _build_raw_inner(b)
+    d = desc_to_floats(base["desc"])
+    d = copy.deepcopy(d)
+    fixes = []
+    for table, fields in ID_FIELDS.items():
+        for ri, row in enumerate(d[table]):
+            for fi, col in fields.items():
+                if isinstance(row[fi], int) and row[fi] < -1:
+                    fixes.append((table, col, ri, row[fi]))
+                    row[fi] = -1
+    ind_fixes = []
+    for ri, row in enumerate(d["individuals"]):
+        for k, v in enumerate(row[2]):
+            if v < -1:
+                ind_fixes.append((ri, k, v))
+                row[2][k] = -1
+    post_sort, post_index = b.get("sort"), b.get("index")
+    if fixes or ind_fixes:
+        b["sort"], b["index"] = False, None
+    b["desc"] = d
+    tc = _build_raw_inner(b)
+    if fixes or ind_fixes:
+        for table, col, ri, v in fixes:
+            t = getattr(tc, table)
+            a = np.array(getattr(t, col))
+            a[ri] = v
+            setattr(t, col, a)
+        if ind_fixes:
+            t = tc.individuals
+            a = np.array(t.parents)
+            off = t.parents_offset
+            for ri, k, v in ind_fixes:
+                a[int(off[ri]) + k] = v
+            t.parents = a
+        b2 = dict(base, desc={k: ([] if isinstance(v, list) else v) for k, v in d.items()})
+        if post_sort:
+            try:
+                tc.sort()
+            except Exception:
+                pass
+        if post_index == "build":
+            try:
+                tc.build_index()
+            except Exception:
+                pass
+        elif isinstance(post_index, dict):
+            import tskit
+            tc.indexes = tskit.TableCollectionIndexes(
+                edge_insertion_order=np.array(post_index["ins"], dtype=np.int32),
+                edge_removal_order=np.array(post_index["rem"], dtype=np.int32))
+    return tc
+
+
+NULL_OK = ("mutations.parent", "nodes.population", "nodes.individual", "individuals.parents")
+
+
+def invalid_ref_tags(tags):
+    """Does the damage include a cross-table reference that check_integrity must refuse?"""
+    for tg in tags:
+        if "=" not in tg or "." not in tg:
+            continue
+        col, val = tg.split("=", 1)
+        if col.split(".")[0] not in ("edges", "mutations", "nodes", "individuals", "migrations"):
+            continue
+        if col.split(".")[1] not in ("parent", "child", "site", "node", "population", "individual", "parents",
+                                     "source", "dest"):
+            continue
+        if val in MANGLE_IDS and not (val == "-1" and col in NULL_OK):
+            return True
+    return False
 
 
 def base_raw(rng, desc, kinds=None):
@@ -2779,6 +2875,10 @@ def model_term(k, st, r, obs, case):
             # by the model (guard without the num_edges comparison) must be the sanitizer report
             return "verdict_implies (match copy_indexes C09_copy_checks_has_index %s %s with OOB => VOOB | _ => VOk end) %s" % (
                 cz(indexed), cz(now), v)
+    if opn == "tc.call" and a.get("m") == "deduplicate_sites" and env.get("dedup"):
+        dd = env["dedup"]               # uses the columns actually stored at this step: valid on arbitrary tables
+        return "verdict_implies (verdict_of (deduplicate_sites_entry C09_dedup_full_integrity %s %s %s)) %s" % (
+            cbool(dd["dups"]), cz(dd["ns"]), clist(dd["msite"]), v)
     if opn.startswith(TABLE_FIRST_ONLY) and (k != 0 or case["base"]["kind"] != "valid"):
         return None                      # tables drift along a sequence; arbitrary tables are monitored only
     ts = env.get("ts")
@@ -2966,6 +3066,22 @@ def model_term(k, st, r, obs, case):
             if any(abs(res_id(x, n)) >= 2 ** 31 for ps in a["parents"] for x in ps):
                 return None
             return "verdict_implies (verdict_of (individual_keep_rows false %s [%s])) %s" % (clist(idm), rows, v)
+        elif opn == "mutations.keep_rows_parents" and len(a["parent"]) == len(a["keep"]):
+            n = len(a["parent"])
+            idm, kk = [], 0
+            for ch in a["keep"]:
+                idm.append(kk if ch == "1" else -1)
+                kk += ch == "1"
+            vals = [res_id(x, n) for x in a["parent"]]
+            if any(abs(x) > 2 ** 31 for x in vals):
+                return None
+            rows = "; ".join("(%s, %s)" % (cbool(ch == "1"), cz(x)) for ch, x in zip(a["keep"], vals))
+            return "verdict_implies (verdict_of (mutation_keep_rows C09_mutation_keep_rows_strict %s [%s])) %s" % (
+                clist(idm), rows, v)
+        elif opn == "tc.call" and a.get("m") == "deduplicate_sites" and env.get("dedup"):
+            dd = env["dedup"]
+            return "verdict_implies (verdict_of (deduplicate_sites_entry C09_dedup_full_integrity %s %s %s)) %s" % (
+                cbool(dd["dups"]), cz(dd["ns"]), clist(dd["msite"]), v)
         elif opn == "tc.subset":
             n = tcn["nodes"]
             m = "subset_entry %s %s %s %s" % (cbool(tcn["migrations"] > 0), cz(n), _alloc(n),
@@ -3409,7 +3525,7 @@ class Tables(Monitor):
                                 {"op": "table.iterate", "args": {"table": t}}] + T}
         # ragged / scalar id columns that keep_rows validates and then remaps through id_map
         # (seeded change C09-7): an out-of-range or deleted reference anywhere in a kept row
-        bad_ids = ("n", "n+1", "max", "-2", "min")
+        bad_ids = ("n", "n+1", "max", "-2", "min", "-3", "-1000")
         plists = [[["-1"], ["0"], ["-1", "0"]], [["0", "-1"], ["-1", "-1"], ["1", "0"]]]
         for b in bad_ids:
             plists += [[["-1", b], ["-1"], []], [["0", "-1", b], ["-1"], []], [[b], ["-1"], []], [["-1", "-1", b, "0"], [], []],
@@ -3424,11 +3540,16 @@ class Tables(Monitor):
                     {"op": "individuals.keep_rows_parents", "args": {"parents": ps, "keep": keep},
                      "expect": "raise" if (kept_bad or deleted_ref) else "ok"},
                     {"op": "table.iterate", "args": {"table": "individuals"}}] + T}
-        for par in (["-1", "0", "1"], ["-1", "-1", "0"], ["-1", "n", "0"], ["-1", "0", "max"], ["-1", "-2", "0"], ["-1", "0", "n+1"],
-                    ["-1", "-1", "1"]):
-            for keep in ("111", "101", "011", "110"):
+        low = ("-2", "-3", "-1000", "min")
+        pars = [["-1", "0", "1"], ["-1", "-1", "0"], ["-1", "-1", "1"], ["-1", "n", "0"], ["-1", "0", "max"], ["-1", "0", "n+1"]]
+        pars += [["-1", b, "0"] for b in low] + [[b, "-1", "-1"] for b in low] + [["-1", "-1", b] for b in low]
+        for par in pars:
+            for keep in ("111", "101", "011", "110", "100"):
+                bad = any(k == "1" and x != "-1" and (x in low or x in ("n", "n+1", "max") or keep[int(x)] == "0")
+                          for k, x in zip(keep, par))
                 yield {"base": rng.choice(bases), "steps": [
-                    {"op": "mutations.keep_rows_parents", "args": {"parent": par, "keep": keep}, "expect": "any"},
+                    {"op": "mutations.keep_rows_parents", "args": {"parent": par, "keep": keep},
+                     "expect": "raise" if bad else "ok"},
                     {"op": "table.iterate", "args": {"table": "mutations"}}] + T}
         for name in ("tc.delete_sites",):
             yield from focused(rng, bases, name, tail=("probe.tc",))
@@ -3519,7 +3640,7 @@ class RawTables(Monitor):
 
     def generate(self, rng, tier):
         descs = valid_bases(rng, 12 if tier == "quick" else 60, max_sites=4, migrations=False)
-        n = 250 if tier == "quick" else 8000
+        n = 150 if tier == "quick" else 8000
         # systematic part: every kind of damage x every table-collection entry point
         entry = [{"op": "tc.call", "args": {"m": m}} for m in TC_CALLS] + [
             {"op": "tc.simplify", "args": {"samples": ["0", "1"], "opts": {}}},
@@ -3537,13 +3658,20 @@ class RawTables(Monitor):
             {"op": "tc.keep_intervals", "args": {"iv": [["0", "mid"]], "opts": {"simplify": False}}},
             {"op": "tc.delete_older", "args": {"t": "mid"}},
             {"op": "tc.delete_sites", "args": {"sites": ["0"]}},
-        ]
+        ] + [{"op": "table.keep_rows_pattern", "args": {"table": t, "pattern": pat}}
+             for t in ("mutations", "individuals", "nodes", "edges", "sites") for pat in ("1", "10")]
         reps = 1 if tier == "quick" else 4
         for _ in range(reps):
-            for kind in MANGLE_KINDS:
+            for kinds_ in [[k] for k in MANGLE_KINDS] + MANGLE_COMBOS:
+                kind = kinds_[-1].partition(":")[0]
                 for e in entry:
-                    base = base_raw(rng, rng.choice(descs), [kind])
+                    if tier == "quick" and len(kinds_) == 1 and kind not in REF_KINDS and rng.random() < 0.5:
+                        continue
+                    base = base_raw(rng, rng.choice(descs), kinds_)
                     st = {"op": e["op"], "args": json.loads(json.dumps(e["args"])), "expect": "any"}
+                    if e["op"] == "tc.call" and e["args"]["m"] in CHECKING_CALLS and invalid_ref_tags(base["tags"]) \
+                            and not (e["args"]["m"] == "deduplicate_sites" and not base["desc"]["sites"]):
+                        st["expect"] = "raise"      # an out-of-range cross-table reference must be refused
                     if kind == "edge_id" and e["op"] in ("tc.ibd_within", "tc.ibd_between", "tc.ibd_all",
                                                          "tc.delete_older", "tc.link_ancestors"):
                         # since e0eff6d (C09-N5) these check the tables on entry: an edge whose parent or
@@ -3615,7 +3743,7 @@ class Arrays(Monitor):
         for t in TABLES:
             cols = FIXEDCOLS[t] + RAGGED[t] + [c + "_offset" for c in RAGGED[t]]
             for col in cols:
-                kinds = WEIRD if not quick else rng.sample(WEIRD, 5)
+                kinds = WEIRD if not quick else rng.sample(WEIRD, 4)
                 for kind in kinds:
                     for how in ("set", "append", "fromdict") if not quick else (rng.choice(["set", "append", "fromdict"]),):
                         yield {"base": rng.choice(bases), "steps": [
@@ -3669,7 +3797,7 @@ class Arrays(Monitor):
         stats = list(ONE_WAY[:2]) + ["divergence", "f3", "f4"] if quick else list(ONE_WAY) + list(MULTI_WAY)
         for stat in stats:
             for what in ("sets", "sets_flat", "windows", "indexes"):
-                for kind in (WEIRD if not quick else rng.sample(WEIRD, 6)):
+                for kind in (WEIRD if not quick else rng.sample(WEIRD, 4)):
                     for mode in ("site", "branch") if not quick else (rng.choice(["site", "branch", "node"]),):
                         yield {"base": rng.choice(bases), "steps": [
                             {"op": "ts.stat_arrays", "args": {"stat": stat, "what": what, "kind": kind, "mode": mode}},
